@@ -39,20 +39,34 @@ Section Loop.
         right. split; [exact E | discriminate].
   Qed.
 
-  (* admm returns the primal variable produced by the operator (and raises when the loop body never ran) *)
+  Lemma admm_loop_pos (R : M -> Prop) split conv prox : (forall v y, prox v = Ok y -> R y) ->
+    forall f it x dual xs x' xs' d',
+    admm_loop msub madd (S f) it split conv prox x dual xs = Ok (x', xs', d') -> R x' /\ xs' <> None.
+  Proof.
+    intros HR f it x dual xs x' xs' d' H. cbn [admm_loop] in H.
+    destruct (prox (msub (split x dual) dual)) as [x1|] eqn:E; simpl in H; [|discriminate H].
+    apply HR in E.
+    destruct (conv it x1 (split x dual) (msub (madd dual x1) (split x dual))).
+    - inversion H; subst. split; [exact E | discriminate].
+    - apply (admm_loop_inv R _ _ _ HR) in H. destruct H as [(-> & ->) | H]; [split; [exact E | discriminate] | exact H].
+  Qed.
+
+  (* admm returns the primal variable produced by the operator when the inner budget is >= 1, and its start (nothing validated, nothing
+     projected) when the budget is 0 (fix fe4edf7: x_split is bound before the loop) *)
   Lemma admm_range (R : M -> Prop) n_iter split conv prox x dual x' s d' :
     (forall v y, prox v = Ok y -> R y) ->
-    admm msub madd n_iter split conv prox x dual = Ok (x', s, d') -> R x' /\ 0 < n_iter.
+    admm msub madd n_iter split conv prox x dual = Ok (x', s, d') ->
+    (0 < n_iter -> R x') /\ (n_iter = 0 -> x' = x /\ s = x /\ d' = dual).
   Proof.
     intros HR H. unfold admm in H.
     destruct (admm_loop msub madd n_iter 0 split conv prox x dual None) as [[[x1 xs1] d1]|] eqn:E; simpl in H; [|discriminate H].
-    destruct xs1 as [s1|]; [|discriminate H]. inversion H; subst.
     split.
-    - apply (admm_loop_inv R _ _ _ HR) in E. destruct E as [(_ & E) | (E & _)]; [discriminate E | exact E].
-    - destruct n_iter; [simpl in E; inversion E | lia].
+    - intros Hn. destruct n_iter as [|k]; [inversion Hn|].
+      apply (admm_loop_pos R _ _ _ HR) in E. destruct E as (E & _). destruct xs1; inversion H; subst; exact E.
+    - intros ->. simpl in E. inversion E; subst. simpl in H. inversion H; subst. auto.
   Qed.
 
-  Lemma admm_zero_budget split conv prox x dual : admm msub madd 0 split conv prox x dual = Err.
+  Lemma admm_zero_budget split conv prox x dual : admm msub madd 0 split conv prox x dual = Ok (x, x, dual).
   Proof. reflexivity. Qed.
 
   Variable E : env (M := M).
@@ -60,7 +74,7 @@ Section Loop.
   Lemma update_mode_inv inner it fs duals mode fs' duals' :
     update_mode dM op val msub madd E inner it (fs, duals) mode = Ok (fs', duals') ->
     length fs' = length fs /\ (forall m, m <> mode -> nth m fs' dM = nth m fs dM) /\
-    (mode < length fs -> in_range mode (nth mode fs' dM)) /\ 0 < inner.
+    (mode < length fs -> 0 < inner -> in_range mode (nth mode fs' dM)) /\ (inner = 0 -> forall m, nth m fs' dM = nth m fs dM).
   Proof.
     unfold update_mode. intros H.
     destruct (admm msub madd inner (e_split E fs mode) (e_conv E it mode) (proximal_operator op val mode)
@@ -68,30 +82,38 @@ Section Loop.
     inversion H; subst.
     apply (admm_range (in_range mode)) in A; [|intros v y; apply proximal_operator_ok].
     destruct A as (A & A0).
-    split; [apply set_nth_length|]. split; [|split; [|exact A0]].
+    split; [apply set_nth_length|]. split; [|split].
     - intros m Hm. apply nth_set_nth_other. exact Hm.
-    - intros L. rewrite nth_set_nth_same; auto.
+    - intros L Hi. rewrite nth_set_nth_same; auto.
+    - intros Hi m. destruct (A0 Hi) as (-> & _ & _).
+      destruct (Nat.eq_dec m mode) as [->|Hne]; [|apply nth_set_nth_other; exact Hne].
+      destruct (Nat.lt_ge_cases mode (length fs)) as [L|L]; [apply nth_set_nth_same; exact L|].
+      rewrite !nth_overflow; [reflexivity | exact L | rewrite set_nth_length; exact L].
   Qed.
 
   Lemma sweep_inv inner it : forall modes st st',
     sweep dM op val msub madd E inner it st modes = Ok st' ->
     length (fst st') = length (fst st) /\
     (forall m, ~ In m modes -> nth m (fst st') dM = nth m (fst st) dM) /\
-    (forall m, m < length (fst st) -> In m modes \/ in_range m (nth m (fst st) dM) -> in_range m (nth m (fst st') dM)).
+    (forall m, m < length (fst st) -> (In m modes /\ 0 < inner) \/ in_range m (nth m (fst st) dM) -> in_range m (nth m (fst st') dM)) /\
+    (inner = 0 -> forall m, nth m (fst st') dM = nth m (fst st) dM).
   Proof.
     induction modes as [|a r IH]; intros st st' H; simpl in H.
-    - inversion H; subst. split; auto. split; auto. intros m _ [[] | Hr]; exact Hr.
+    - inversion H; subst. split; auto. split; auto. split; [|auto]. intros m _ [([] & _) | Hr]; exact Hr.
     - destruct st as [fs duals].
       destruct (update_mode dM op val msub madd E inner it (fs, duals) a) as [[fs1 du1]|] eqn:U; simpl in H; [|discriminate H].
-      apply update_mode_inv in U. destruct U as (L1 & K1 & R1 & _).
-      apply IH in H. simpl in H. destruct H as (L2 & K2 & R2). simpl.
-      split; [congruence|]. split.
+      apply update_mode_inv in U. destruct U as (L1 & K1 & R1 & Z1).
+      apply IH in H. simpl in H. destruct H as (L2 & K2 & R2 & Z2). simpl.
+      split; [congruence|]. split; [|split].
       + intros m Hm. rewrite K2 by tauto. apply K1. intros ->. apply Hm. left; reflexivity.
       + intros m Hl Hc. apply R2; [lia|].
         destruct (Nat.eq_dec m a) as [->|Hne].
-        * right. apply R1. exact Hl.
-        * destruct Hc as [[Ha | Hin] | Hr]; [congruence | left; exact Hin|].
+        * destruct Hc as [(_ & Hi) | Hr].
+          -- right. apply R1; [exact Hl | exact Hi].
+          -- destruct (Nat.eq_dec inner 0) as [Hz|Hz]; [right; rewrite (Z1 Hz); exact Hr | right; apply R1; [exact Hl | lia]].
+        * destruct Hc as [([Ha | Hin] & Hi) | Hr]; [congruence | left; split; [exact Hin | exact Hi]|].
           right. rewrite K1 by exact Hne. exact Hr.
+      + intros Hi m. rewrite (Z2 Hi), (Z1 Hi). reflexivity.
   Qed.
 
   Lemma outer_loop_inv n inner modes : forall fuel it st st',
@@ -99,20 +121,22 @@ Section Loop.
     length (fst st') = length (fst st) /\
     (forall m, ~ In m modes -> nth m (fst st') dM = nth m (fst st) dM) /\
     (forall m, m < length (fst st) -> in_range m (nth m (fst st) dM) -> in_range m (nth m (fst st') dM)) /\
-    (0 < fuel -> forall m, m < length (fst st) -> In m modes -> in_range m (nth m (fst st') dM)).
+    (0 < fuel -> 0 < inner -> forall m, m < length (fst st) -> In m modes -> in_range m (nth m (fst st') dM)) /\
+    (inner = 0 -> forall m, nth m (fst st') dM = nth m (fst st) dM).
   Proof.
     induction fuel as [|f IH]; intros it st st' H; simpl in H.
     - inversion H; subst. repeat split; auto. intros L; inversion L.
     - destruct (sweep dM op val msub madd E inner it st modes) as [st1|] eqn:S; simpl in H; [|discriminate H].
-      apply sweep_inv in S. destruct S as (L1 & K1 & R1).
+      apply sweep_inv in S. destruct S as (L1 & K1 & R1 & Z1).
       destruct (err_defined E n modes (fst st1)); [|discriminate H].
       destruct (e_stop E it (fst st1) (snd st1)).
       + inversion H; subst. repeat split; auto.
-      + apply IH in H. destruct H as (L2 & K2 & R2 & _).
-        split; [congruence|]. split; [|split].
+      + apply IH in H. destruct H as (L2 & K2 & R2 & _ & Z2).
+        split; [congruence|]. split; [|split; [|split]].
         * intros m Hm. rewrite K2, K1; auto.
         * intros m Hl Hr. apply R2; [lia|]. apply R1; auto.
-        * intros _ m Hl Hin. apply R2; [lia|]. apply R1; auto.
+        * intros _ Hi m Hl Hin. apply R2; [lia|]. apply R1; auto.
+        * intros Hi m. rewrite (Z2 Hi), (Z1 Hi). reflexivity.
   Qed.
 
   Lemma prox_all_inv : forall raw i fs, prox_all op val i raw = Ok fs ->
@@ -136,8 +160,8 @@ Section Loop.
     constrained_cp dM op val msub madd E n i0 fixed n_outer n_inner zero = Ok fs ->
     length fs = length (init_factors i0) /\
     (forall m, m < length fs ->
-       init_computed i0 = true \/ (In m (modes_list n fixed) /\ 0 < n_outer) -> in_range m (nth m fs dM)) /\
-    (forall m, init_computed i0 = false -> ~ In m (modes_list n fixed) \/ n_outer = 0 ->
+       init_computed i0 = true \/ (In m (modes_list n fixed) /\ 0 < n_outer /\ 0 < n_inner) -> in_range m (nth m fs dM)) /\
+    (forall m, init_computed i0 = false -> ~ In m (modes_list n fixed) \/ n_outer = 0 \/ n_inner = 0 ->
        nth m fs dM = nth m (init_factors i0) dM).
   Proof.
     unfold constrained_cp. intros H.
@@ -146,7 +170,7 @@ Section Loop.
     destruct ((0 <? n_outer) && negb (Nat.eqb (length fs0) n)) eqn:LenOk; [discriminate H|].
     destruct (outer_loop dM op val msub madd E n n_inner n_outer 0 (modes_list n fixed)
                          (fs0, map (fun _ => zero) fs0)) as [st|] eqn:O; simpl in H; [|discriminate H].
-    inversion H; subst. pose proof O as O'. apply outer_loop_inv in O. simpl in O. destruct O as (L & K & R & U).
+    inversion H; subst. pose proof O as O'. apply outer_loop_inv in O. simpl in O. destruct O as (L & K & R & U & Z).
     assert (I0 : length fs0 = length (init_factors i0) /\
                  (init_computed i0 = true -> forall m, m < length fs0 -> in_range m (nth m fs0 dM)) /\
                  (init_computed i0 = false -> fs0 = init_factors i0)).
@@ -156,15 +180,30 @@ Section Loop.
       - inversion I; subst. split; auto. split; [discriminate | auto]. }
     destruct I0 as (L0 & C0 & U0).
     split; [congruence|]. split.
-    - intros m Hm [Hc | (Hin & Hpos)].
+    - intros m Hm [Hc | (Hin & Hpos & Hipos)].
       + apply R; [lia|]. apply C0; auto. lia.
       + apply U; auto. lia.
-    - intros m Hu [Hn | Hz].
+    - intros m Hu [Hn | [Hz | Hz]].
       + rewrite K by exact Hn. rewrite U0 by exact Hu. reflexivity.
       + subst n_outer. simpl in O'. inversion O'; subst. simpl. rewrite U0 by exact Hu. reflexivity.
+      + rewrite (Z Hz). rewrite U0 by exact Hu. reflexivity.
   Qed.
 
-  (* a successful run with a positive outer budget implies a positive inner budget whenever some mode is updated *)
+  (* inner budget 0 (fix fe4edf7: admm returns its start): whatever the outer budget, the fixed modes and the environment, the run returns
+     the initialisation - the projected raw factors for a computed initialisation, the user's own factors otherwise *)
+  Theorem cp_inner_zero n i0 fixed n_outer zero fs :
+    constrained_cp dM op val msub madd E n i0 fixed n_outer 0 zero = Ok fs ->
+    exists fs0, initialize op val i0 = Ok fs0 /\ length fs = length fs0 /\ forall m, nth m fs dM = nth m fs0 dM.
+  Proof.
+    unfold constrained_cp. intros H.
+    destruct (val 0) as [c0|]; simpl in H; [|discriminate H].
+    destruct (initialize op val i0) as [fs0|] eqn:I; simpl in H; [|discriminate H].
+    destruct ((0 <? n_outer) && negb (Nat.eqb (length fs0) n)); [discriminate H|].
+    destruct (outer_loop dM op val msub madd E n 0 n_outer 0 (modes_list n fixed) (fs0, map (fun _ => zero) fs0)) as [st|] eqn:O; simpl in H; [|discriminate H].
+    inversion H; subst. apply outer_loop_inv in O. simpl in O. destruct O as (L & _ & _ & _ & Z).
+    exists fs0. split; [reflexivity|]. split; [exact L|]. intros m. apply (Z eq_refl m).
+  Qed.
+
   Lemma cp_err_on_double n i0 fixed n_outer n_inner zero :
     val 0 = Err -> constrained_cp dM op val msub madd E n i0 fixed n_outer n_inner zero = Err.
   Proof. unfold constrained_cp. intros ->. reflexivity. Qed.
@@ -175,7 +214,7 @@ Section Loop.
   Theorem cp_requested_in_range n sp (E : env (M := M)) i0 fixed n_outer n_inner zero fs m k s p :
     wf_specs sp ->
     constrained_cp dM op (validate truthy n sp) msub madd E n i0 fixed n_outer n_inner zero = Ok fs ->
-    m < length fs -> init_computed i0 = true \/ (In m (modes_list n fixed) /\ 0 < n_outer) ->
+    m < length fs -> init_computed i0 = true \/ (In m (modes_list n fixed) /\ 0 < n_outer /\ 0 < n_inner) ->
     In (k, s) sp -> requested truthy n s m p ->
     exists v, nth m fs dM = op k p v.
   Proof.
